@@ -235,6 +235,18 @@ def commentLines (c : List Char) : List (List Char) :=
 def specPragmaOfComment (c : List Char) : Option (List Char) :=
   (commentLines c).findSome? Text.pragmaOfComment
 
+/-- C15: what can be called as a factory "by exactly that identifier": an identifier, or a member chain `a.b.c` - whose FIRST part is
+    an identifier (not a reserved word) or `this`, and whose further parts are property names (any identifier name, reserved words
+    such as `default` included) -/
+def specValidPragma (p : String) : Bool :=
+  let isName (s : String) : Bool :=
+    match s.toList with
+    | [] => false
+    | c :: cs => isPragmaStart c && cs.all isPragmaCont
+  match (Text.splitOn '.' p.toList).map String.ofList with
+  | [] => false
+  | first :: rest => (isName first && (!reservedWords.contains first || first == "this")) && rest.all isName
+
 def effectivePragma (o : Opts) (env : Env) : Option String :=
   let fromComments := env.comments.foldl (fun (acc : Option String) cs =>
     match cs.findSome? (fun c => (specPragmaOfComment c.toList).map String.ofList) with
@@ -246,7 +258,7 @@ def effectivePragma (o : Opts) (env : Env) : Option String :=
     | some p => some p
     | none => o.pragma
   match chosen with
-  | some p => if isValidPragma p then some p else none
+  | some p => if specValidPragma p then some p else none
   | none => none
 
 def hasModelAttr (v : Node) : Bool := v.atoms.contains "model"
